@@ -109,7 +109,8 @@ def bin_rule(ctx):
     ctx.check("C08.B", "vectorise_one:total", len(tots) == 1 and tots[0]["op"] == "+=" and fv.term(tots[0]["r"]) == L(1.0),
               "total += 1.0 once per window", "total is not incremented exactly once by 1.0 per window",
               line_of(tots[0]) if tots else line_of(loop))
-    branchy = [x for x in walk(loop["body"]) if x.get("k") in ("if", "match", "continue", "break", "ret")]
+    branchy = [x for x in walk(loop["body"]) if x.get("k") in ("if", "match", "continue", "break", "ret")
+               and not is_value_select(x)]
     ctx.check("C08.B", "vectorise_one:every_item", not branchy, "no window is skipped",
               "conditional control flow inside the binning loop", line_of(branchy[0]) if branchy else None)
     normaliser(ctx, "C08.B", fv, "vectorise_one", SF("norm"), tv, bv)
